@@ -16,6 +16,21 @@
    Paths are records  [ns, root, form, rest, tr]:  /ipfs/<cid>/rest  or  /ipns/<name in textual
    form>/rest, tr = trailing slash.  Time is a logical clock (unit = the harness' TTL unit).
 
+   Concurrent publishes (Procs # {}): a publish call p is the small process
+     PBegin  ->  PRead (take the publisher's critical section for the name, read the last record)
+             ->  PWrite (choose the sequence number from THAT record, store to the datastore, leave
+                 the critical section)  |  PReject (explicit sequence not greater: leave, fail)
+             ->  PRoute (hand the record to the value store, outside the critical section: the
+                 store keeps the better record, an overtaken record is refused and the call fails)
+             ->  PEnd.
+   Between PRead(p) and PWrite(p)/PReject(p) no other call reads or writes the name's last record
+   (lock[n] = p): that is what makes SeqMonotone / SeqIncrementsOnChange hold for the records in
+   the order the datastore and the value store see them (the DsSeq.. and Seq.. properties), ReadIsCurrent, and
+   DsRoutingAgree once the calls have ended.  Calls of the sequential grain (Publish, RStart,
+   Tick, Restart) happen only while no concurrent call is in flight; concurrent calls run with
+   the resolver cache off (the order of the publish-time cache fills of overlapping calls is not
+   part of the property).
+
    Known finding Dev_C29_PublishCacheKey (as built): Publish fills / invalidates the cache under the
    bare name ("k51..."), Resolve reads and fills "/ipns/<text as written>"; so a publish never
    reaches the entries a resolve uses, and a publish with TTL 0 does not drop the old entry. *)
@@ -32,6 +47,7 @@ CONSTANTS Names,       \* IPNS names (keys)
           MaxTTLCaps,  \* WithMaxCacheTTL values: 0 = retention disabled, k = cap (besides "not given" = -1)
           Depths,      \* depth limits of resolve requests (>= 1)
           MaxNow, MaxSeq,
+          Procs,       \* identifiers of concurrent publish calls ({} = sequential calls only)
           Devs         \* enabled known-finding deviations
 
 Dev == "Dev_C29_PublishCacheKey" \in Devs
@@ -65,8 +81,12 @@ VARIABLES routing,  \* [Names -> record]   the value store
           now,      \* logical clock
           csize, maxttl,   \* configuration (fixed per run)
           rs,       \* the resolve call in flight
-          last      \* the last completed call and its observable outcome
-vars == <<routing, dsrec, cache, now, csize, maxttl, rs, last>>
+          last,     \* the last completed call and its observable outcome
+          pubs,     \* [Procs -> concurrent publish call]  st: idle | begun | read | written | routed | rejected
+          lock,     \* [Names -> Procs \cup {"none"}]  who is inside the publisher's critical section of the name
+          loose     \* names whose value-store record took part in an equal-sequence tie (TTL may differ from the datastore's)
+cvars == <<pubs, lock, loose>>
+vars == <<routing, dsrec, cache, now, csize, maxttl, rs, last, pubs, lock, loose>>
 
 (* ------------------------------------------------------------------ cache ----------- *)
 Key(n, f) == [n |-> n, f |-> f]
@@ -91,10 +111,14 @@ CapTTL(t) == IF maxttl > 0 /\ t > maxttl THEN maxttl ELSE t
 
 (* ------------------------------------------------------------------ init ------------ *)
 Idle == [st |-> "idle"]
+NoCall == [st |-> "idle", n |-> "", v |-> NoPath, ttl |-> 0, sq |-> -1, prev |-> NoRec, rec |-> NoRec, ok |-> FALSE]
+AllIdle == \A p \in Procs : pubs[p].st = "idle"
+InFlight(n) == \E p \in Procs : pubs[p].st # "idle" /\ pubs[p].n = n
 Init == /\ routing = [n \in Names |-> NoRec] /\ dsrec = [n \in Names |-> NoRec]
         /\ cache = <<>> /\ now = 0
         /\ csize \in CacheSizes /\ maxttl \in MaxTTLs
         /\ rs = Idle /\ last = [op |-> "Init"]
+        /\ pubs = [p \in Procs |-> NoCall] /\ lock = [n \in Names |-> "none"] /\ loose = {}
 
 (* ------------------------------------------------------------------ Publish --------- *)
 \* updateRecord: previous record = own datastore, else the routing system
@@ -105,30 +129,82 @@ SeqChosen(prev, v, sq) == IF sq >= 0 THEN sq
                           ELSE IF prev.val = v THEN prev.seq ELSE prev.seq + 1
 
 Publish(n, v, ttl, sq) ==
-  /\ rs = Idle
+  /\ rs = Idle /\ AllIdle
   /\ LET prev == Prev(n) IN
      IF SeqRejected(prev, sq)
      THEN /\ cache' = Without(cache, PubKey(n))            \* error path: cacheInvalidate
-          /\ UNCHANGED <<routing, dsrec>>
+          /\ UNCHANGED <<routing, dsrec, loose>>
           /\ last' = [op |-> "Publish", n |-> n, v |-> v, sq |-> sq, ok |-> FALSE, pre |-> prev]
      ELSE LET s == SeqChosen(prev, v, sq) IN
           /\ s <= MaxSeq
           /\ dsrec' = [dsrec EXCEPT ![n] = Rec(v, s, ttl)]
           /\ routing' = [routing EXCEPT ![n] = Rec(v, s, ttl)]
+          /\ loose' = loose \ {n}
           /\ cache' = IF ttl > 0 THEN CacheSet(cache, PubKey(n), v, ttl)
                       ELSE IF Dev THEN cache                \* as built: cacheSet(ttl<=0) is a no-op
                       ELSE Without(cache, PubKey(n))        \* nothing cacheable: drop the old entry
           /\ last' = [op |-> "Publish", n |-> n, v |-> v, sq |-> sq, ok |-> TRUE, pre |-> prev]
-  /\ UNCHANGED <<now, csize, maxttl, rs>>
+  /\ UNCHANGED <<now, csize, maxttl, rs, pubs, lock>>
+
+(* ------------------------------------------------------------------ concurrent Publish *)
+\* the call starts (namesys.Publish entered); nothing shared is touched yet
+PBegin(p, n, v, ttl, sq) ==
+  /\ rs = Idle /\ csize = 0 /\ pubs[p].st = "idle"
+  /\ pubs' = [pubs EXCEPT ![p] = [NoCall EXCEPT !.st = "begun", !.n = n, !.v = v, !.ttl = ttl, !.sq = sq]]
+  /\ last' = [op |-> "PBegin"]
+  /\ UNCHANGED <<routing, dsrec, cache, now, csize, maxttl, rs, lock, loose>>
+\* updateRecord, first half: enter the critical section and read the last published record
+\* (Sanity_NoPublishLock, used by MCNamesysNoLock.cfg only: the model WITHOUT the critical section, to show
+\*  that the sequence properties depend on it)
+PRead(p) ==
+  /\ pubs[p].st = "begun" /\ (lock[pubs[p].n] = "none" \/ "Sanity_NoPublishLock" \in Devs)
+  /\ lock' = [lock EXCEPT ![pubs[p].n] = p]
+  /\ pubs' = [pubs EXCEPT ![p].st = "read", ![p].prev = Prev(pubs[p].n)]
+  /\ UNCHANGED <<routing, dsrec, cache, now, csize, maxttl, rs, last, loose>>
+\* explicit sequence number not greater than the one read: fail without storing anything
+PReject(p) ==
+  /\ pubs[p].st = "read" /\ SeqRejected(pubs[p].prev, pubs[p].sq)
+  /\ lock' = [lock EXCEPT ![pubs[p].n] = "none"]
+  /\ pubs' = [pubs EXCEPT ![p].st = "rejected", ![p].ok = FALSE]
+  /\ UNCHANGED <<routing, dsrec, cache, now, csize, maxttl, rs, last, loose>>
+\* updateRecord, second half: sequence number from the record READ, store, leave the critical section
+PWrite(p) ==
+  /\ pubs[p].st = "read" /\ ~SeqRejected(pubs[p].prev, pubs[p].sq)
+  /\ LET c == pubs[p]
+         s == SeqChosen(c.prev, c.v, c.sq)
+     IN /\ s <= MaxSeq
+        /\ dsrec' = [dsrec EXCEPT ![c.n] = Rec(c.v, s, c.ttl)]
+        /\ pubs' = [pubs EXCEPT ![p].st = "written", ![p].rec = Rec(c.v, s, c.ttl)]
+        /\ lock' = [lock EXCEPT ![c.n] = "none"]
+  /\ UNCHANGED <<routing, cache, now, csize, maxttl, rs, last, loose>>
+\* PutIPNSRecord, outside the critical section.  The value store (environment) keeps the better
+\* record: a higher sequence number is accepted, a lower one refused ("old record", the call fails);
+\* equal numbers are decided by the records' validity (not modelled: either outcome, acc).
+PRoute(p, acc) ==
+  /\ pubs[p].st = "written"
+  /\ LET c == pubs[p]
+         cur == routing[c.n]
+     IN /\ (~cur.has \/ c.rec.seq > cur.seq) => acc
+        /\ (cur.has /\ c.rec.seq < cur.seq) => ~acc
+        /\ routing' = IF acc THEN [routing EXCEPT ![c.n] = c.rec] ELSE routing
+        /\ loose' = IF cur.has /\ c.rec.seq = cur.seq /\ c.rec # cur THEN loose \cup {c.n}
+                     ELSE IF acc THEN loose \ {c.n} ELSE loose
+        /\ pubs' = [pubs EXCEPT ![p].st = "routed", ![p].ok = acc]
+  /\ UNCHANGED <<dsrec, cache, now, csize, maxttl, rs, last, lock>>
+PEnd(p) ==
+  /\ pubs[p].st \in {"routed", "rejected"}
+  /\ pubs' = [pubs EXCEPT ![p] = NoCall]
+  /\ last' = [op |-> "PEnd"]
+  /\ UNCHANGED <<routing, dsrec, cache, now, csize, maxttl, rs, lock, loose>>
 
 (* ------------------------------------------------------------------ Resolve --------- *)
 NoRes == [err |-> "", path |-> NoPath, ttl |-> 0]
 RStart(q) ==
-  /\ rs = Idle
+  /\ rs = Idle /\ AllIdle
   /\ rs' = [st |-> "run", inp |-> q, p |-> ReqPath(q), depth |-> q.depth, ttl |-> 0, pend |-> {},
             hops |-> 0, first |-> NoPath, res |-> NoRes,
             ryp |-> IF last.op = "Publish" /\ last.ok /\ last.n = q.n THEN last.v ELSE NoPath]
-  /\ UNCHANGED <<routing, dsrec, cache, now, csize, maxttl, last>>
+  /\ UNCHANGED <<routing, dsrec, cache, now, csize, maxttl, last, pubs, lock, loose>>
 
 \* after a hop produced value v with reported TTL t
 Advance(v, t, pend) ==
@@ -154,37 +230,40 @@ RHop ==
            ELSE Advance(r.val, CapTTL(r.ttl),
                         rs.pend \cup (IF csize > 0 /\ r.ttl > 0
                                       THEN {[key |-> k, val |-> r.val, ttl |-> r.ttl]} ELSE {}))
-  /\ UNCHANGED <<routing, dsrec, now, csize, maxttl, last>>
+  /\ UNCHANGED <<routing, dsrec, now, csize, maxttl, last, pubs, lock, loose>>
 
 \* the deferred cache fill of an earlier hop lands
 RFire(e) ==
   /\ rs.st \in {"run", "done"} /\ e \in rs.pend
   /\ cache' = CacheSet(cache, e.key, e.val, e.ttl)
   /\ rs' = [rs EXCEPT !.pend = @ \ {e}]
-  /\ UNCHANGED <<routing, dsrec, now, csize, maxttl, last>>
+  /\ UNCHANGED <<routing, dsrec, now, csize, maxttl, last, pubs, lock, loose>>
 \* ... or is cancelled: only after the early return with the recursion error
 RDrop(e) ==
   /\ rs.st = "done" /\ rs.res.err = "recursion" /\ e \in rs.pend
   /\ rs' = [rs EXCEPT !.pend = @ \ {e}]
-  /\ UNCHANGED <<routing, dsrec, cache, now, csize, maxttl, last>>
+  /\ UNCHANGED <<routing, dsrec, cache, now, csize, maxttl, last, pubs, lock, loose>>
 RFinish ==
   /\ rs.st = "done" /\ rs.pend = {}
   /\ last' = [op |-> "Resolve"]
   /\ rs' = Idle
-  /\ UNCHANGED <<routing, dsrec, cache, now, csize, maxttl>>
+  /\ UNCHANGED <<routing, dsrec, cache, now, csize, maxttl, pubs, lock, loose>>
 
 (* ------------------------------------------------------------------ environment ----- *)
-Tick == /\ rs = Idle /\ now < MaxNow /\ now' = now + 1 /\ last' = [op |-> "Tick"]
-        /\ UNCHANGED <<routing, dsrec, cache, csize, maxttl, rs>>
+Tick == /\ rs = Idle /\ AllIdle /\ now < MaxNow /\ now' = now + 1 /\ last' = [op |-> "Tick"]
+        /\ UNCHANGED <<routing, dsrec, cache, csize, maxttl, rs, pubs, lock, loose>>
 \* a new name system (empty datastore, empty cache) over the same value store
-Restart == /\ rs = Idle /\ dsrec' = [n \in Names |-> NoRec] /\ cache' = <<>> /\ last' = [op |-> "Restart"]
-           /\ UNCHANGED <<routing, now, csize, maxttl, rs>>
+Restart == /\ rs = Idle /\ AllIdle /\ dsrec' = [n \in Names |-> NoRec] /\ cache' = <<>> /\ last' = [op |-> "Restart"]
+           /\ UNCHANGED <<routing, now, csize, maxttl, rs, pubs, lock, loose>>
 
 Next == \/ \E n \in Names, v \in Vals, t \in TTLs, sq \in SeqOpts : Publish(n, v, t, sq)
         \/ \E q \in Req : RStart(q)
         \/ RHop \/ RFinish
         \/ \E e \in (IF rs.st = "idle" THEN {} ELSE rs.pend) : RFire(e) \/ RDrop(e)
         \/ Tick \/ Restart
+        \/ \E p \in Procs : \/ \E n \in Names, v \in Vals, t \in TTLs, sq \in SeqOpts : PBegin(p, n, v, t, sq)
+                             \/ PRead(p) \/ PReject(p) \/ PWrite(p) \/ PEnd(p)
+                             \/ \E acc \in BOOLEAN : PRoute(p, acc)
 Spec == Init /\ [][Next]_vars
 
 (* ------------------------------------------------------------------ the property ---- *)
@@ -224,7 +303,24 @@ MinNonZeroTTL ==
 CacheCoherent == \A i \in 1..Len(cache) :
                    cache[i].eol > now => LET r == routing[cache[i].key.n] IN
                                            r.has /\ r.val = cache[i].val /\ r.ttl = cache[i].ttl
-DsRoutingAgree == \A n \in Names : dsrec[n].has => dsrec[n] = routing[n]
+\* the value store holds what the publisher stored last (once the publishes of the name have ended)
+DsRoutingAgree == \A n \in Names : dsrec[n].has /\ ~InFlight(n) =>
+                    /\ routing[n].has /\ routing[n].val = dsrec[n].val /\ routing[n].seq = dsrec[n].seq
+                    /\ (n \in loose \/ routing[n].ttl = dsrec[n].ttl)
+\* the critical section: its holder is the one call between PRead and PWrite/PReject, and the record
+\* that call read is still the last published record of the name
+LockDiscipline == \A n \in Names : \A p \in Procs : lock[n] = p <=> (pubs[p].st = "read" /\ pubs[p].n = n)
+ReadIsCurrent == \A p \in Procs : pubs[p].st = "read" => pubs[p].prev = Prev(pubs[p].n)
+\* a concurrent publish: what it stored is never newer than what the stores hold afterwards (nothing is
+\* lost to an older record), an explicit sequence number is used as given and only if greater than the one read
+ConcOutcome == \A p \in Procs :
+                 LET c == pubs[p] IN
+                 /\ c.st \in {"written", "routed"} =>
+                      /\ dsrec[c.n].has /\ dsrec[c.n].seq >= c.rec.seq
+                      /\ c.sq >= 0 => /\ c.rec.seq = c.sq
+                                       /\ IF c.prev.has THEN c.sq > c.prev.seq ELSE c.sq >= 1
+                 /\ c.st = "routed" => routing[c.n].has /\ routing[c.n].seq >= c.rec.seq
+                 /\ c.st = "rejected" => c.sq >= 0 /\ (IF c.prev.has THEN c.sq <= c.prev.seq ELSE c.sq = 0)
 ExplicitSeqMustIncrease ==
   last.op = "Publish" /\ last.sq >= 0 =>
     /\ last.ok <=> (IF last.pre.has THEN last.sq > last.pre.seq ELSE last.sq >= 1)
@@ -241,6 +337,18 @@ SeqIncrementsOnChangeAct == \A n \in Names : routing[n].has /\ routing'[n].val #
 SeqStepsByOneAct == \A n \in Names :
                       (last'.op = "Publish" /\ last'.n = n /\ last'.ok /\ last'.sq < 0 /\ routing[n].has) =>
                         routing'[n].seq = routing[n].seq + (IF routing'[n].val = routing[n].val THEN 0 ELSE 1)
+\* the same for the records in the order the publisher's datastore sees them (Restart empties it)
+DsSeqMonotoneAct == \A n \in Names : dsrec[n].has /\ dsrec'[n].has => dsrec'[n].seq >= dsrec[n].seq
+DsSeqIncrementsOnChangeAct == \A n \in Names : dsrec[n].has /\ dsrec'[n].has /\ dsrec'[n].val # dsrec[n].val =>
+                                dsrec'[n].seq > dsrec[n].seq
+\* a concurrent publish without explicit sequence moves the datastore's number by at most one
+DsSeqStepsByOneAct == \A p \in Procs :
+                        (pubs[p].st = "read" /\ pubs'[p].st = "written" /\ pubs[p].sq < 0 /\ dsrec[pubs[p].n].has) =>
+                          dsrec'[pubs[p].n].seq = dsrec[pubs[p].n].seq +
+                                                   (IF dsrec'[pubs[p].n].val = dsrec[pubs[p].n].val THEN 0 ELSE 1)
+DsSeqMonotone           == [][DsSeqMonotoneAct]_vars
+DsSeqIncrementsOnChange == [][DsSeqIncrementsOnChangeAct]_vars
+DsSeqStepsByOne         == [][DsSeqStepsByOneAct]_vars
 SeqMonotone           == [][SeqMonotoneAct]_vars
 SeqIncrementsOnChange == [][SeqIncrementsOnChangeAct]_vars
 SeqStepsByOne         == [][SeqStepsByOneAct]_vars
